@@ -22,7 +22,9 @@ Proof. exact report_exact. Qed.
 Print Assumptions C16_report_exact_per_flag.
 
 (* 1''. Confinement (partial: the full statement is 1): EVERY quirk vector, the one claimed for the current
-      tree included, is exact on files outside the nine listed defect classes. *)
+      tree included, is exact on files outside the six defect classes that are still listed.  (Abstract classes,
+      trait / generic impl blocks and blank / comment lines in TS classes are no longer defect classes: the
+      repaired code is covered by 1 and 1' through the generated ts_class_node_types, rs_target_mode, ts_loc_mode.) *)
 Theorem C16_actual_exact_partial : forall q c f,
   file_good f = true -> defect_free f = true -> report q c f = spec_report c f.
 Proof. exact report_exact_partial. Qed.
@@ -44,12 +46,12 @@ Theorem C16_boundary : forall name line col mm ml ck kw,
 Proof. exact unit_boundary. Qed.
 Print Assumptions C16_boundary.
 
-Theorem C16_boundary_model : forall d name line0 col cfg kw,
+Theorem C16_boundary_model : forall d name line0 col hl hc cfg kw,
   d = py_metrics_dict \/ d = ts_metrics_dict \/ d = rs_metrics_dict ->
   cf_check cfg && kw = false ->
-  class_rep d name (cf_mm cfg) (cf_ml cfg) kw line0 col cfg = []
-  /\ class_rep d name (S (cf_mm cfg)) (cf_ml cfg) kw line0 col cfg <> []
-  /\ class_rep d name (cf_mm cfg) (S (cf_ml cfg)) kw line0 col cfg <> [].
+  class_rep d name (cf_mm cfg) (cf_ml cfg) kw line0 col hl hc cfg = []
+  /\ class_rep d name (S (cf_mm cfg)) (cf_ml cfg) kw line0 col hl hc cfg <> []
+  /\ class_rep d name (cf_mm cfg) (S (cf_ml cfg)) kw line0 col hl hc cfg <> [].
 Proof. exact model_boundary. Qed.
 Print Assumptions C16_boundary_model.
 
@@ -119,8 +121,8 @@ Definition ex_py : sfile :=
     [Build_line LCode "class UserManager:"; Build_line LComment "# note"; Build_line LCode "def run(self): return 1";
      Build_line LBlank ""; Build_line LCode "def _hidden(self): return 2"; Build_line LCode "def load(self): return 3";
      Build_line LCode "class Plain:"; Build_line LCode "x = 1"]
-    [Build_cls "UserManager" CPlain 1 0 6 [Build_member MPlain "run"; Build_member MPlain "_hidden"; Build_member MPlain "load"];
-     Build_cls "Plain" CPlain 7 0 2 [Build_member MField "x"]] [] [].
+    [Build_cls "UserManager" CPlain 1 0 0 6 [Build_member MPlain "run"; Build_member MPlain "_hidden"; Build_member MPlain "load"];
+     Build_cls "Plain" CPlain 7 0 0 2 [Build_member MField "x"]] [] [].
 Definition ex_cfg : config :=
   [("srp", [("max_methods", VNat 9); ("python", VSec [("max_methods", 1)]); ("typescript", VSec [("max_methods", 5)]); ("max_loc", VNat 4)])].
 Example C16_nonvacuous :
